@@ -16,7 +16,10 @@
       under `startGate.Lock`;  teardown's body is under `closeOnce`;
     * one supervisor `step` (the run goroutine is the only reader of the event queue);
     * a blocking wait becomes an action that is enabled only when the awaited condition holds
-      (`<-e.done`, `connectLoopWg.Wait`, `supWg.Wait`).
+      (`<-e.done`, `connectLoopWg.Wait`, `supWg.Wait`);
+    * `supervisor.inject` is a GUARANTEED send on the 16-slot `events` channel: it parks while the
+      channel is full and `run()` is alive (`injectOk`), so `requestClose` (Close) and the transport
+      goroutines' `TCPDown` / `T7Expired` are enabled only when there is room or `run()` has returned.
   Open and Close run entirely under `lifeMu`, so at most one of them is past its entry; the model keeps
   ONE api program counter and the entry actions are enabled only when it is idle (callers queued on
   `lifeMu` are simply actions that have not happened yet).
@@ -218,6 +221,18 @@ def register (c : Cfg) (e : Nat) : Cfg :=
 
 def stale (c : Cfg) (l : Loop) : Bool := c.shutdown || c.gen != l.gen
 
+/-- `supervisorEventsCap`: capacity of the supervisor's `events` channel (hsms/supervisor.go). -/
+def eventsCap : Nat := 16
+
+/-- Can `inject` complete now?  `select { case s.events <- ev: case <-s.runDone: }` — the send is
+    GUARANTEED, i.e. it BLOCKS while the buffered channel is full and `run()` is alive; it falls through
+    once `run()` has returned.  (The supervisor goroutine itself never injects and never blocks in a
+    reaction, so a blocked injector is always released by the next `supStep` or by `supExit`.) -/
+def injectOk (c : Cfg) : Bool :=
+  match c.sup with
+  | none => true
+  | some s => s.pc == .exited || s.queue.length < eventsCap
+
 /-! ### the step function (`none` = the action is not enabled) -/
 
 def step? (c : Cfg) : Act → Option Cfg
@@ -252,6 +267,8 @@ def step? (c : Cfg) : Act → Option Cfg
         some { teardown c1 e with api := .openColdWait e }
       else
         let c2 := { c1 with shutdown := true }
+        -- (the events queue of the supervisor this Open created is still empty here — invariant S6a —
+        --  so this `inject` never parks and needs no `injectOk` guard)
         let c3 := inject (setSup c2 (fun s => { s with closeEpoch := some e })) .close
         some { c3 with api := .openRollbackWait e }
     | _ => none
@@ -293,8 +310,10 @@ def step? (c : Cfg) : Act → Option Cfg
   | .closeRequest =>
     match c.api with
     | .closeReq e =>
-      let c1 := inject (setSup c (fun s => { s with closeEpoch := some e })) .close
-      some { c1 with api := .closeWaitEpoch e }
+      if injectOk c then
+        let c1 := inject (setSup c (fun s => { s with closeEpoch := some e })) .close
+        some { c1 with api := .closeWaitEpoch e }
+      else none                                                           -- parked on the full events channel
     | _ => none
   | .closeEpochDone =>
     match c.api with
@@ -452,8 +471,8 @@ def step? (c : Cfg) : Act → Option Cfg
     if c.tr.owner.isSome ∧ supSt c = .ns then some (setSup c (fun s => { s with st := .sel })) else none
   | .envSelectLost =>
     if c.tr.owner.isSome ∧ supSt c = .sel then some (setSup c (fun s => { s with st := .ns })) else none
-  | .envDown => if c.tr.owner.isSome then some (inject c .disc) else none
-  | .envT7 => if c.tr.owner.isSome then some (inject c .t7) else none
+  | .envDown => if c.tr.owner.isSome ∧ injectOk c then some (inject c .disc) else none
+  | .envT7 => if c.tr.owner.isSome ∧ injectOk c then some (inject c .t7) else none
 
 /-- Total step: a disabled action leaves the configuration unchanged. -/
 def step (c : Cfg) (a : Act) : Cfg := (step? c a).getD c
